@@ -17,7 +17,7 @@
    Duplicate (topic, partition) payloads in one call are outside the order/accounting statements (hypothesis
    NoDup (map p_key ps)): the response dictionary keeps one answer per key (client.py:1348). *)
 From AV Require Import Base.Util Model.ClientMeta Model.ClientRoute Proofs.ClientMetaDict Proofs.ClientMetaFacts
-  Proofs.ClientRouteFacts Proofs.ClientRouteFallback Proofs.ClientRouteHosts.
+  Proofs.ClientRouteWF Proofs.ClientRouteFacts Proofs.ClientRouteFallback Proofs.ClientRouteHosts Proofs.ClientRouteNoKeyError.
 From Coq Require Import Permutation Sorted.
 
 (* Routing.  Whenever requests are sent: the payloads were resolved in order, each to the node the cache named
@@ -111,6 +111,19 @@ Theorem C07_fallback_order : forall st u st' log r,
        (forall e, In e log -> try_failed (snd e) = true /\ try_closed (snd e) = false) /\ s_closed st' = false).
 Proof. exact unaware_fallback. Qed.
 Print Assumptions C07_fallback_order.
+
+(* From every reachable state (Proofs/ClientRouteWF.v: [reach] is closed under every client operation with
+   arbitrary scripts, [reach_WF : reach st -> WF st]) the node a payload resolves to and every node the
+   fallback order names has a known address: KeyError at client.py:908 (self._brokers[node_id]) cannot
+   happen, neither in the fan-out nor in a broker-agnostic request. *)
+Theorem C07_no_keyerror : forall st group expect ps loads outs,
+  reach st -> a_res (aware st group expect ps loads outs) <> SErr EKeyErrorBroker.
+Proof. intros st group expect ps loads outs H. apply aware_no_keyerror. apply reach_WF. exact H. Qed.
+Print Assumptions C07_no_keyerror.
+Theorem C07_no_keyerror_agnostic : forall st u st' log r,
+  reach st -> unaware st u = (st', log, r) -> r <> UKeyError.
+Proof. intros st u st' log r H. apply unaware_no_keyerror. apply reach_WF. exact H. Qed.
+Print Assumptions C07_no_keyerror_agnostic.
 
 (* _normalize_hosts on "host", "host:port" strings and (host, port) tuples: the result is strictly increasing
    (sorted by host then port AND duplicate free), has exactly the normalised items as members, does not depend
